@@ -568,7 +568,9 @@ def checkC08 (j : Json) : R Json := do
             else if ownOk.isEmpty then "bounded-but-column-fails-at-every-reported-choice"
             else if depOk.isEmpty then "bound-ignores-failing-dependency"
             else "bound-or-class-matches-no-valid-derivation"
-          return viol kind [("variable", Json.str name),
+          -- is the loop infinite as a whole (no choice at which every column is failure-free)?
+          let loopInfinite := !(mats.any fun (_, m) => m.all fun row => row.all (· != .i))
+          return viol kind [("variable", Json.str name), ("loop_infinite", Json.bool loopInfinite),
             ("example_choice", match reported with | (c, _) :: _ => jList jNat c | [] => Json.null)]
     pure (ok (Json.mkObj [("supported", Json.bool true)]))
 
